@@ -145,18 +145,19 @@ def stampDest (m : LMap) (filtered : List Id) : Option Id → Except Err (List S
       else if filtered.any (· ∈ anc) then pure [Step.stamp filtered [dest] true false]
       else pure [Step.stamp [] [dest] true true]
 
-/-- the `for dest in dests` loop: with several destinations each one claims the remaining
-    heads that share a lineage with it -/
-def stampLoop (m : LMap) (multi : Bool) : List Id → List (Option Id) → Except Err (List Step)
+/-- the `for dest in dests` loop: each destination claims the remaining heads that share a
+    lineage with it (with the revision itself, not merely with the branch label it was named
+    by); `base` (`none`) takes whatever is left -/
+def stampLoop (m : LMap) : List Id → List (Option Id) → Except Err (List Step)
   | _, [] => pure []
   | remaining, d :: rest => do
-    let (filtered, remaining') ← match d, multi with
-      | some dest, true => do
+    let (filtered, remaining') ← match d with
+      | some dest => do
         let f ← filterForLineage m remaining dest true
         pure (f, remaining.filter (· ∉ f))
-      | _, _ => pure (remaining, remaining)
+      | none => pure (remaining, remaining)
     let s ← stampDest m filtered d
-    let r ← stampLoop m multi remaining' rest
+    let r ← stampLoop m remaining' rest
     pure (s ++ r)
 
 def stampRevs (m : LMap) (targets : List String) (rows : List Id) : Except Err (List Step) := do
@@ -167,7 +168,7 @@ def stampRevs (m : LMap) (targets : List String) (rows : List Id) : Except Err (
   let filtered := dedupe fh.flatten
   let dests ← getRevisionsMany m targets
   let dests := if dests.isEmpty then [none] else dests
-  stampLoop m (dests.length > 1) filtered dests
+  stampLoop m filtered dests
 
 /-- `command.stamp` without `--purge`: steps then bookkeeping -/
 def stamp (m : LMap) (targets : List String) (rows : List Id) : Except Err (List Id) := do
